@@ -14,7 +14,7 @@ theorem dropLast_getLastD_flatten {α} (f : List (List α)) : f.dropLast.flatten
     cases t with
     | nil => simp
     | cons b t' =>
-      simp only [List.dropLast_cons₂, List.flatten_cons, List.getLastD_cons, List.append_assoc] at ih ⊢
+      simp only [List.dropLast_cons_cons, List.flatten_cons, List.getLastD_cons, List.append_assoc] at ih ⊢
       rw [← ih]
 
 theorem map_parts_flatten {α β} (g : α → β) (f : List (List α)) :
